@@ -370,6 +370,116 @@ theorem runAll_sound (order : List Seq) (horder : ∀ s ∈ order, findSeq conf 
         | zero => exact ⟨rfl, fu, hw⟩
         | succ i => simpa using hp i (by simpa using hi) (by simpa using ho)
 
+
+/-! ## a pipeline is the composition of its stages -/
+
+theorem runEntries_append (alias : Bool) (es1 es2 : List Entry) (ws : List Text) :
+    runEntries W alias (es1 ++ es2) ws = (runEntries W alias es1 ws).bind (runEntries W alias es2) := by
+  unfold runEntries
+  rw [List.foldlM_append]
+  rfl
+
+theorem appendWordFiles_nil (st : List Text) : appendWordFiles W st [] = st := rfl
+
+/-- no tag of the chain but the root brings word files of its own, and none names an alias file -/
+def PlainChain : List Seq → Prop
+  | [] => True
+  | root :: rest => root.alias = false ∧ ∀ s ∈ rest, s.words = [] ∧ s.alias = false
+
+/-- **stage by stage = entry by entry**: the words a tag ends with are its root's word files pushed through the entries
+    of the whole chain, root first, in the listed order -/
+theorem finalWords_chain : ∀ (fuel : Nat) (s : Seq) (ch : List Seq), chainGo conf fuel s = some ch → PlainChain ch →
+    ∃ root rest, ch = root :: rest ∧
+      finalWords W conf fuel s = runEntries W false (ch.flatMap (·.entries)) (appendWordFiles W [] root.words) := by
+  intro fuel
+  induction fuel with
+  | zero => intro s ch h; cases h
+  | succ fuel ih =>
+    intro s ch h hplain
+    unfold chainGo at h
+    unfold finalWords
+    cases hf : s.frm with
+    | none =>
+      rw [hf] at h
+      simp only [Option.some.injEq] at h
+      subst h
+      refine ⟨s, [], rfl, ?_⟩
+      have ha : s.alias = false := hplain.1
+      simp [ha]
+    | some f =>
+      rw [hf] at h
+      simp only at h ⊢
+      cases hfs : findSeq conf f with
+      | none => rw [hfs] at h; cases h
+      | some p =>
+        rw [hfs] at h
+        simp only [Option.bind_some] at h ⊢
+        cases hch : chainGo conf fuel p with
+        | none => rw [hch] at h; cases h
+        | some chp =>
+          rw [hch] at h
+          simp only [Option.map_some, Option.some.injEq] at h
+          subst h
+          -- the parent's chain is plain too
+          have hplainp : PlainChain chp := by
+            cases chp with
+            | nil => trivial
+            | cons r rs =>
+              refine ⟨hplain.1, ?_⟩
+              intro x hx
+              exact hplain.2 x (by simp [hx])
+          obtain ⟨root, rest, hroot, hfw⟩ := ih p chp hch hplainp
+          subst hroot
+          refine ⟨root, rest ++ [s], by simp, ?_⟩
+          have hs := hplain.2 s (by simp)
+          rw [hfw]
+          have hflat : List.flatMap (fun x => x.entries) (root :: rest ++ [s]) = List.flatMap (fun x => x.entries) (root :: rest) ++ s.entries := by
+            simp [List.flatMap_append]
+          rw [hflat, runEntries_append]
+          congr 1
+          funext st
+          rw [hs.1, hs.2]; rfl
+
+/-- and, when the library composes (`C10.applyRuleGroups_append`: running `G₁ ++ G₂` is running `G₁`, then `G₂` on its
+    result — which for the real library needs the render/parse round trip of C09), the entries of a chain collapse into
+    ONE call on the concatenated history, the thing `conv tag --recurse` exports -/
+theorem runEntries_history (hcomp : ∀ (g1 g2 : List Group) (ws : List Text), W.run false (g1 ++ g2) ws = (W.run false g1 ws).bind (W.run false g2))
+    (hid : ∀ ws, W.run false [] ws = some ws) :
+    ∀ (es : List Entry) (gs : List Group), es.foldlM (fun acc e => (selectGroups W e).map (acc ++ ·)) [] = some gs →
+      ∀ ws, runEntries W false es ws = W.run false gs ws := by
+  -- generalised over the groups collected so far
+  have gen : ∀ (es : List Entry) (acc gs : List Group), es.foldlM (fun acc e => (selectGroups W e).map (acc ++ ·)) acc = some gs →
+      ∀ ws, (W.run false acc ws).bind (runEntries W false es) = W.run false gs ws := by
+    intro es
+    induction es with
+    | nil =>
+      intro acc gs h ws
+      have : acc = gs := by simpa using h
+      subst this
+      cases W.run false acc ws <;> simp [runEntries]
+    | cons e es ih =>
+      intro acc gs h ws
+      simp only [List.foldlM_cons] at h
+      cases hsel : selectGroups W e with
+      | none => rw [hsel] at h; simp at h
+      | some ge =>
+        rw [hsel] at h
+        simp only [Option.map_some, Option.bind_some] at h
+        have := ih (acc ++ ge) gs h ws
+        rw [hcomp acc ge ws] at this
+        rw [← this]
+        cases W.run false acc ws with
+        | none => rfl
+        | some mid =>
+          simp only [Option.bind_some]
+          unfold runEntries
+          simp only [List.foldlM_cons, hsel, Option.bind_some]
+          rfl
+  intro es gs h ws
+  have := gen es [] gs h ws
+  rw [hid ws] at this
+  simpa using this
+
 /-! ## the statements are about something: a three-level chain listed children first -/
 
 def demoConf : List Seq :=
